@@ -89,8 +89,10 @@ Definition pair_ok (v : var) (o1 : op S1) (i2 : dinstr S2) : Prop :=
   | DOp o => exists l1, o1 = lin_op S1 l1 /\ d_lin S2 o = map_lin l1 /\ darrs_ok S2 o /\
              (if is_shift S1 l1 then d_order1 S2 o = [] else coef_ok2 o v l1)
   | DPlain OWait => o1 = @OWait S1
-  | DPlain (OPD p false) => exists p1, o1 = @OPD S1 p1 false /\ p = ev p1 /\ dv p1 = k0
-  | DPlain _ => False      (* SPOILER / RESET / PD(reset): partials are not propagated by the code *)
+  | DPlain OSpoil => o1 = @OSpoil S1
+  | DPlain OReset => o1 = @OReset S1
+  | DPlain (OPD p r) => exists p1, o1 = @OPD S1 p1 r /\ p = ev p1 /\ dv p1 = k0   (* the density is a constant *)
+  | DPlain _ => False      (* ScalarOp / MatrixOp / S are differentiable operators: DOp *)
   end.
 
 Definition inv2 (v : var) (n : nat) (s1 : sm S1) (ds : dstate S2) : Prop :=
@@ -213,15 +215,62 @@ Proof.
     + apply (step2_nonshift v n o (LMatrix m m0)); auto.
     + now apply (step2_shift v n o s1 ds d nm).
   - destruct Hinv as (Hs1 & Hs & Hm & Hme & He & Hp & Hv).
-    destruct o as [| | | | |p r|]; try contradiction; [destruct r; [contradiction|]|].
-    + (* PD without reset: only the equilibrium changes, by a constant *)
-      destruct Hi as (p1 & -> & -> & Hdp). unfold inv2. cbn [d_main d_p1 op_n apply].
-      split; [now apply pd_shaped|split; [now apply pd_shaped|split; [|split; [|split; [|split]]]]]; auto.
-      * intros k. rewrite (gete_pd S2 _ false _ n k Hs), (gete_pd S1 _ false _ n k Hs1).
-        destruct (k =? 0); [|now rewrite evT_t0]. unfold evT; cbn [fp fm fz]. now rewrite ev_0.
-      * intros k. rewrite (gete_pd S1 _ false _ n k Hs1). destruct (k =? 0); [|apply dvT_t0].
-        unfold dvT; cbn [fp fm fz]. now rewrite Hdp, pdv_0.
-    + subst o1. exact (conj Hs1 (conj Hs (conj Hm (conj Hme (conj He (conj Hp Hv)))))).
+    unfold inv2. cbn [d_main d_p1]. unfold map_partials. rewrite alookup_map_values.
+    destruct o as [| | | | |p r|]; try contradiction.
+    + (* SPOILER *)
+      subst o1. cbn [op_n apply apply_partial].
+      split; [now apply spoil_shaped|split; [now apply spoil_shaped|split; [|split; [exact Hme|split; [exact He|split]]]]].
+      * intros k. rewrite !get_spoil, Hm. unfold evT; cbn [fp fm fz]. now rewrite ev_0.
+      * destruct (alookup Nat.eqb v (d_p1 ds)) as [q|]; cbn [omap opshaped apply_partial apply]; auto.
+        destruct Hp as [Hq1 Hq2]. split; [now apply spoil_shaped|exact Hq2].
+      * intros k. rewrite get_spoil. specialize (Hv k).
+        destruct (alookup Nat.eqb v (d_p1 ds)) as [q|]; cbn [omap oget apply_partial apply] in *.
+        -- rewrite get_spoil, Hv. unfold dvT; cbn [fp fm fz]. now rewrite pdv_0.
+        -- unfold dvT in *; cbn [fp fm fz]. unfold t0 in *. injection Hv as _ _ H3. now rewrite pdv_0, <- H3.
+    + (* RESET *)
+      subst o1. cbn [op_n apply apply_partial].
+      split; [now apply (reset_shaped S1 s1 n)|split; [now apply (reset_shaped S2 (d_main ds) n)|split; [|split; [|split; [|split]]]]].
+      * intros k. rewrite (get_reset S2 _ n k Hs), (get_reset S1 _ n k Hs1). destruct (k =? 0); [apply Hme|now rewrite evT_t0].
+      * intros k. rewrite (gete_reset S2 _ n k Hs), (gete_reset S1 _ n k Hs1). destruct (k =? 0); [apply Hme|now rewrite evT_t0].
+      * intros k. rewrite (gete_reset S1 _ n k Hs1). destruct (k =? 0); [apply He|apply dvT_t0].
+      * destruct (alookup Nat.eqb v (d_p1 ds)) as [q|]; cbn [omap opshaped apply_partial apply]; auto.
+        destruct Hp as [Hq1 Hq2]. split; [now apply (reset_shaped S2 q n)|].
+        intros k. rewrite (gete_reset S2 _ n k Hq1). destruct (k =? 0); auto.
+      * intros k. rewrite (get_reset S1 _ n k Hs1).
+        assert (E : dvT (if k =? 0 then gete S1 s1 0 else t0) = t0) by (destruct (k =? 0); [apply He|apply dvT_t0]).
+        rewrite E. destruct (alookup Nat.eqb v (d_p1 ds)) as [q|]; cbn [omap oget opshaped apply_partial apply] in *; auto.
+        destruct Hp as [Hq1 Hq2]. rewrite (get_reset S2 _ n k Hq1). destruct (k =? 0); auto.
+    + (* PD: the equilibrium changes by a constant; with reset the state becomes that constant, the partial zero *)
+      destruct Hi as (p1 & -> & -> & Hdp). cbn [op_n apply apply_partial].
+      assert (Ee : forall k, dvT (gete S1 (apply_pd p1 r s1) k) = t0).
+      { intros k. rewrite (gete_pd S1 _ r _ n k Hs1). destruct (k =? 0); [|apply dvT_t0].
+        unfold dvT; cbn [fp fm fz]. now rewrite Hdp, pdv_0. }
+      assert (Eme : forall k, gete S2 (apply_pd (ev p1) r (d_main ds)) k = evT (gete S1 (apply_pd p1 r s1) k)).
+      { intros k. rewrite (gete_pd S2 _ r _ n k Hs), (gete_pd S1 _ r _ n k Hs1).
+        destruct (k =? 0); [|now rewrite evT_t0]. unfold evT; cbn [fp fm fz]. now rewrite ev_0. }
+      split; [now apply pd_shaped|split; [now apply pd_shaped|]].
+      destruct r.
+      * split; [|split; [exact Eme|split; [exact Ee|split]]].
+        -- intros k. rewrite (get_pd S2 _ true _ n k Hs), (get_pd S1 _ true _ n k Hs1).
+           destruct (k =? 0); [|now rewrite evT_t0]. unfold evT; cbn [fp fm fz]. now rewrite ev_0.
+        -- destruct (alookup Nat.eqb v (d_p1 ds)) as [q|]; cbn [omap opshaped apply_partial]; auto.
+           destruct Hp as [[Hq1 Hq3] Hq2]. split; [split; cbn [st equ]; [now rewrite map_length|exact Hq3]|exact Hq2].
+        -- intros k. rewrite (get_pd S1 _ true _ n k Hs1).
+           assert (E : dvT (if k =? 0 then mk3 k0 k0 p1 else t0) = t0).
+           { destruct (k =? 0); [|apply dvT_t0]. unfold dvT; cbn [fp fm fz]. now rewrite Hdp, pdv_0. }
+           rewrite E. destruct (alookup Nat.eqb v (d_p1 ds)) as [q|]; cbn [omap oget apply_partial]; auto.
+           unfold Views.get. cbn [st].
+           rewrite (getZ_map_st S2 q (fun _ => t0) k eq_refl). reflexivity.
+      * split; [|split; [exact Eme|split; [exact Ee|split]]].
+        -- intros k. rewrite (get_pd S2 _ false _ n k Hs), (get_pd S1 _ false _ n k Hs1). apply Hm.
+        -- destruct (alookup Nat.eqb v (d_p1 ds)) as [q|]; cbn [omap opshaped apply_partial]; auto.
+        -- intros k. rewrite (get_pd S1 _ false _ n k Hs1). specialize (Hv k).
+           destruct (alookup Nat.eqb v (d_p1 ds)) as [q|]; cbn [omap oget apply_partial] in *; auto.
+    + (* Wait *)
+      subst o1. cbn [op_n apply apply_partial].
+      split; [exact Hs1|split; [exact Hs|split; [exact Hm|split; [exact Hme|split; [exact He|split]]]]].
+      * destruct (alookup Nat.eqb v (d_p1 ds)) as [q|]; cbn [omap opshaped apply_partial apply]; auto.
+      * intros k. specialize (Hv k). destruct (alookup Nat.eqb v (d_p1 ds)) as [q|]; cbn [omap oget apply_partial apply] in *; auto.
 Qed.
 
 Fixpoint prun_n (prog : list (op S1)) (n : nat) : nat :=
